@@ -307,3 +307,58 @@ Proof.
   - destruct Hs as [id ev extra _ _]. cbn [cx_nodes]. unfold upd. destruct (i =? id) eqn:E; [|apply IH].
     specialize (IH id). destruct (cx_nodes x id) as [n pend]. cbn [fst snd] in IH. apply exec_cc_PD. exact IH.
 Qed.
+
+(* ------------------------------------------------------------------ the follower's side of an append
+   [cc_ok L c]: of any two configuration-change entries of L the earlier one is committed w.r.t. c
+   ("at most one uncommitted configuration change").  A follower keeps it through
+   handleAppendEntries PROVIDED the leader's log prefix the message stands for satisfies it w.r.t.
+   the commit index the message carries — the hypotheses are those the global invariant of
+   RaftInv.v supplies at its M_append step (X = the leader's log of the message's term).  This is
+   the preservation lemma the global half of ingredient (a) needs for that step; the matching
+   facts for messages (component "iC2" of the plan in Properties/C15.v) are not yet part of the
+   invariant. *)
+Definition cc_ok (L : elog) (c : nat) : Prop :=
+  forall j j' e e', j < j' -> nth_error L j = Some e -> nth_error L j' = Some e' ->
+    isconf (snd e) = true -> isconf (snd e') = true -> S j <= c.
+
+Lemma cc_ok_mono : forall L c c', cc_ok L c -> c <= c' -> cc_ok L c'.
+Proof. intros L c c' H Hc j j' e e' Hlt Hj Hj' He He'. pose proof (H j j' e e' Hlt Hj Hj' He He'). lia. Qed.
+
+Lemma cc_ok_pending : forall n, no_pending n -> forall t p,
+  cc_ok (n_log n) (n_commit n) -> cc_ok (n_log n ++ [(t, p)]) (n_commit n).
+Proof.
+  intros n Hnp t p H j j' e e' Hlt Hj Hj' He He'.
+  assert (Hj'len : j' < length (n_log n ++ [(t, p)])) by (apply nth_error_Some; congruence).
+  rewrite app_length in Hj'len. cbn in Hj'len.
+  assert (Hjl : j < length (n_log n)) by lia.
+  rewrite nth_error_app1 in Hj by exact Hjl. pose proof (Hnp j e Hj He). lia.
+Qed.
+
+Lemma append_cc_ok : forall LLf L X com idx mc ents L' c' lni,
+  wf LLf L -> wf LLf X -> terms_pos X ->
+  firstn idx X ++ ents = firstn (idx + length ents) X -> idx + length ents <= length X ->
+  com <= length L ->
+  maybe_append L com idx (term_at X idx) mc ents = AppOk L' c' lni ->
+  cc_ok L com -> cc_ok (firstn (idx + length ents) X) mc -> cc_ok L' c'.
+Proof.
+  intros LLf L X com idx mc ents L' c' lni HwL HwX Hpos Hseg Hlen Hcom H HL HX.
+  destruct (maybe_append_spec LLf L X com idx mc ents L' c' lni HwL HwX Hpos Hseg Hlen Hcom H)
+    as (-> & Hlni & Hpre & Hshape & Hc).
+  set (lni := idx + length ents) in *.
+  assert (Hc1 : com <= c') by (destruct Hc as [[-> _]|(_ & Hlt & _)]; lia).
+  assert (Hc2 : Nat.min mc lni <= c') by (destruct Hc as [[-> Hm]|(-> & _)]; lia).
+  assert (Hin : forall j j' e e', j < j' -> j' < lni -> nth_error L' j = Some e -> nth_error L' j' = Some e' ->
+            isconf (snd e) = true -> isconf (snd e') = true -> S j <= c').
+  { intros j j' e e' Hlt Hj'l Hj Hj' He He'.
+    assert (E1 : nth_error (firstn lni X) j = Some e).
+    { rewrite <- Hpre. rewrite nth_error_firstn_lt by lia. exact Hj. }
+    assert (E2 : nth_error (firstn lni X) j' = Some e').
+    { rewrite <- Hpre. rewrite nth_error_firstn_lt by lia. exact Hj'. }
+    pose proof (HX j j' e e' Hlt E1 E2 He He'). lia. }
+  intros j j' e e' Hlt Hj Hj' He He'.
+  destruct (Nat.lt_ge_cases j' lni) as [Hin'|Hout]; [exact (Hin j j' e e' Hlt Hin' Hj Hj' He He')|].
+  destruct Hshape as [->|(-> & _)].
+  - pose proof (HL j j' e e' Hlt Hj Hj' He He'). lia.
+  - exfalso. assert (j' < length (firstn lni X)) by (apply nth_error_Some; congruence).
+    rewrite firstn_length in H0. lia.
+Qed.
